@@ -36,7 +36,7 @@ from .alg import (
     mk_sum,
     mk_prod,
 )
-from .interp import UNIT, HashV, IterV, MutSlot, RngBuilder, RngV, Tr, subst_val, slog
+from .interp import UNIT, HashV, IterV, MutSlot, UserIter, RngBuilder, RngV, Tr, subst_val, slog
 
 MODELS = {}
 
@@ -191,7 +191,36 @@ def m_inverse(I, a, e, ci):
     return Enum("Option", "Some", [Sc(x.e**-1)])
 
 
-@model("ark_ff::PrimeField::into_bigint", "ark_ec::CurveGroup::into_affine", "ark_ec::AffineRepr::into_group", "std::convert::Into::into", "std::boxed::Box::<T>::new", "std::vec::Vec::<T, A>::as_slice", "std::borrow::Borrow::borrow")
+LC_ADT = "r1cs::linear_combination::LinearCombination"
+
+
+def _local_impl(I, rx):
+    """the crate's own impl method whose def path matches the pattern (type-parameter names are free)"""
+    import re as _re
+
+    hits = [p for p in I.F.fns if _re.fullmatch(rx, p)]
+    return hits[0] if len(hits) == 1 else None
+
+
+_LC_RX = r"<r1cs::linear_combination::LinearCombination<\w+> as "
+
+
+@model("std::convert::Into::into")
+def m_into(I, a, e, ci):
+    """`x.into()` is the identity unless the target type is the crate's LinearCombination and x is not one yet: then it is
+    the crate's own `From<Variable>` / `From<F>` (std's blanket `Into` impl), which is interpreted"""
+    v = I.deref(a[0])
+    ty = e.get("ty") or ""
+    if ty.startswith(LC_ADT) and not (isinstance(v, Struct) and v.path == LC_ADT):
+        src = r"\w+" if isinstance(v, Sc) else r"r1cs::linear_combination::Variable<\w+>"
+        p = _local_impl(I, _LC_RX + r"std::convert::From<" + src + r">>::from")
+        if p is None:
+            raise Unanalysable(f"into() LinearCombination from {v!r}: no local From impl found", FX.short(e.get("sp")))
+        return I.call_fn(p, [v], e)
+    return a[0]
+
+
+@model("ark_ff::PrimeField::into_bigint", "ark_ec::CurveGroup::into_affine", "ark_ec::AffineRepr::into_group", "std::boxed::Box::<T>::new", "std::vec::Vec::<T, A>::as_slice", "std::borrow::Borrow::borrow")
 def m_id(I, a, e, ci):
     return a[0]
 
@@ -528,6 +557,13 @@ def log_alloc(I, size, e):
     size = sp.expand(size)
     proofish = [str(x) for x in size.free_symbols if str(x).startswith(("lg", "len_bytes"))] + [str(f.func) for f in size.atoms(sp.Function) if str(f.func).startswith(("lgk",))]
     ok = not proofish or le(size, 64, I.bounds)
+    if not ok:
+        # proportional to the length of a list the proof already holds in memory (small constant factor, no function of
+        # it such as 2^len): bounded by the input size, not an amplification
+        syms = [x for x in size.free_symbols if str(x).startswith(("lg", "len_bytes"))]
+        in_fun = any(f.free_symbols & set(syms) for f in size.atoms(sp.Function))
+        lin = all(sp.Poly(size, x).degree() <= 1 and sp.Poly(size, x).coeff_monomial(x).is_number and abs(sp.Poly(size, x).coeff_monomial(x)) <= 16 for x in syms) if not in_fun else False
+        ok = bool(syms) and not in_fun and lin and not [f for f in size.atoms(sp.Function) if str(f.func).startswith("lgk")]
     slog(I, "alloc", e, ok, f"allocation of {size} elements" + (f" (depends on proof-controlled {proofish})" if proofish else ""))
 
 
@@ -674,6 +710,16 @@ def m_repeat(I, a, e, ci):
 
 @model("std::iter::Iterator::take")
 def m_take(I, a, e, ci):
+    raw = a[0]
+    base = I.deref(raw)
+    if isinstance(base, UserIter) and base.limit is None:
+        return UserIter(base.place, a[1].e)
+    if I.local_next_fn(base) is not None:
+        # take(n) of a crate-local iterator (by value or through by_ref): its own `next` is interpreted n times
+        if isinstance(raw, Ref):
+            return UserIter(raw, a[1].e)
+        box = [base]
+        return UserIter(Ref(lambda: box[0], lambda nv: box.__setitem__(0, nv), "iter-tmp"), a[1].e)
     it, n = I.to_iter_or_inf(a[0]), a[1]
     if it.vec is None:
         return IterV(Vec([Seg(n.e, lambda j, it=it: it.infinite(j))]))
@@ -696,7 +742,10 @@ def mut_elems(I, it):
 
 @model("std::iter::Iterator::skip")
 def m_skip(I, a, e, ci):
-    it, n = I.to_iter(a[0]), a[1]
+    it, n = I.to_iter_or_inf(a[0]), a[1]
+    if it.vec is None:
+        inf = it.infinite
+        return IterV(None, infinite=lambda i, inf=inf, n=n: inf(sp.expand(i + n.e)))
     return IterV(mut_elems(I, it).skip(n.e, I.bounds))
 
 
@@ -813,8 +862,14 @@ def eager_map_segment(I, s, f, off):
 def m_collect(I, a, e, ci):
     it = I.to_iter(a[0])
     ty = e.get("ty", "")
+    if ty.startswith(LC_ADT):
+        # FromIterator for the crate's own type: its by-value impl is interpreted on the iterator
+        p = _local_impl(I, _LC_RX + r"std::iter::FromIterator<\(r1cs::linear_combination::Variable<\w+>, \w+\)>>::from_iter")
+        if p is None:
+            raise Unanalysable("collect into LinearCombination: no local FromIterator impl found", FX.short(e.get("sp")))
+        return I.call_fn(p, [it], e)
     if "LinearCombination" in ty and not ty.startswith("std::vec::Vec"):
-        raise Unanalysable("collect into LinearCombination goes through FromIterator (inlined)")
+        raise Unanalysable("collect into a container of LinearCombination goes through FromIterator")
     return Vec(it.vec.segs)
 
 
@@ -870,6 +925,16 @@ def m_split_at(I, a, e, ci):
     v = I.deref(a[0])
     if isinstance(v, Ref):
         v = I.deref(v.get())
+    if isinstance(v, Opaque) and v.what == "digest":
+        n_ = sp.expand(a[1].e)
+        size = v.info["hash"].out_len()
+        ok = n_.is_number and size is not None and 0 <= int(n_) <= size
+        slog(I, "slice", e, bool(ok), f"split_at({n_}) of a {size}-byte digest")
+        if not ok:
+            raise Unanalysable(f"split_at({n_}) of a digest of unknown/insufficient length", FX.short(e.get("sp")))
+        return Tup([Bytes([("digest-slice", v.info["hash"], "0", str(n_))]), Bytes([("digest-slice", v.info["hash"], str(n_), "end")])])
+    ok = le(0, a[1].e, I.bounds) and le(a[1].e, v.length(), I.bounds)
+    slog(I, "slice", e, ok, f"split_at({sp.expand(a[1].e)}) of length {v.length()}")
     x, y = v.split_at(a[1].e, I.bounds)
     return Tup([x, y])
 
@@ -1144,3 +1209,172 @@ def m_default(I, a, e, ci):
     if ty == "bool":
         return BoolV(False)
     raise Unanalysable(f"Default::default() of type {ty}", FX.short(e.get("sp")))
+
+
+@model("std::bool::<impl bool>::then_some")
+def m_then_some(I, a, e, ci):
+    c = I.decide(I.as_cond(a[0]))
+    some, none = Enum("Option", "Some", [a[1]]), Enum("Option", "None", [])
+    if isinstance(c, bool):
+        return some if c else none
+    return Ite(c, some, none)
+
+
+@model("std::bool::<impl bool>::then")
+def m_then(I, a, e, ci):
+    c = I.decide(I.as_cond(a[0]))
+    f = I.deref(a[1])
+    none = Enum("Option", "None", [])
+    if isinstance(c, bool):
+        return Enum("Option", "Some", [I.apply_closure(f, [])]) if c else none
+    if not isinstance(f, Closure):
+        raise Unanalysable(f"bool::then with {f!r}")
+    # the closure runs (with its effects) only when the condition holds
+    return I.ite_branch(c, lambda: Enum("Option", "Some", [I.apply_closure(f, [])]), lambda: none, f.env, e)
+
+
+@model("std::option::Option::<T>::ok_or_else")
+def m_ok_or_else(I, a, e, ci):
+    v, f = a
+    return lift(v, lambda x: Enum("Result", "Ok", x.payload) if x.variant == "Some" else Enum("Result", "Err", [I.apply_closure(f, [])]))
+
+
+@model("std::option::Option::<T>::and_then", "std::result::Result::<T, E>::and_then")
+def m_and_then(I, a, e, ci):
+    v, f = a
+    return lift(v, lambda x: I.deref(I.apply_closure(f, x.payload)) if x.variant in ("Ok", "Some") else x)
+
+
+@model("std::option::Option::<T>::map_or", "std::result::Result::<T, E>::map_or")
+def m_map_or(I, a, e, ci):
+    v, d, f = a
+
+    def g(x):
+        return I.deref(I.apply_closure(f, x.payload)) if x.variant in ("Ok", "Some") else d
+
+    if isinstance(v, Ite) and isinstance(v.a, Enum) and isinstance(v.b, Enum):
+        return Ite(v.cond, g(v.a), g(v.b))
+    if isinstance(v, Enum):
+        return g(v)
+    raise Unanalysable(f"map_or on {v!r}")
+
+
+@model("std::option::Option::<T>::unwrap_or_else", "std::result::Result::<T, E>::unwrap_or_else", "std::option::Option::<T>::unwrap_or_default")
+def m_unwrap_or_else(I, a, e, ci):
+    v = a[0]
+
+    def g(x):
+        if x.variant in ("Ok", "Some"):
+            return x.payload[0] if x.payload else UNIT
+        if len(a) < 2:
+            raise Unanalysable("unwrap_or_default on None")
+        return I.deref(I.apply_closure(a[1], x.payload if x.variant == "Err" else []))
+
+    if isinstance(v, Enum):
+        return g(v)
+    raise Unanalysable(f"unwrap_or_else on {v!r}")
+
+
+@model("std::iter::successors")
+def m_successors(I, a, e, ci):
+    """successors(Some(x0), |p| Some(p * r)): the geometric sequence x0, x0*r, x0*r^2, .. (the only closed form supported)"""
+    first, f = I.deref(a[0]), a[1]
+    where = FX.short(e.get("sp"))
+    if not (isinstance(first, Enum) and first.variant == "Some" and isinstance(first.payload[0], Sc)):
+        raise Unanalysable(f"iter::successors starting from {first!r}", where)
+    x0 = first.payload[0]
+    ph = fresh("SUCC")
+    old = I.sub_trace()
+    try:
+        nxt = I.deref(I.apply_closure(f, [Sc(ph)]))
+    finally:
+        sub = I.trace
+        I.trace = old
+    if sub.items or not (isinstance(nxt, Enum) and nxt.variant == "Some" and isinstance(nxt.payload[0], Sc)):
+        raise Unanalysable(f"iter::successors with a step that is not `Some(scalar)`: {nxt!r}", where)
+    ratio = sp.simplify(nxt.payload[0].e / ph)
+    if ratio.has(ph):
+        raise Unanalysable("iter::successors: step is not a multiplication by a fixed factor", where)
+    return IterV(None, infinite=lambda i, x0=x0, ratio=ratio: Sc(x0.e * ratio**i))
+
+
+@model("digest::Digest::chain_update")
+def m_chain_update(I, a, e, ci):
+    h = I.deref(a[0])
+    if not isinstance(h, HashV):
+        raise Unanalysable(f"Digest::chain_update on {h!r}")
+    h.updates.append(I.deref(a[1]))
+    return h
+
+
+@model("digest::Digest::digest")
+def m_digest_oneshot(I, a, e, ci):
+    ga = ci.get("gargs") or []
+    h = HashV(ga[0] if ga else e.get("ty", "?"))
+    h.updates.append(I.deref(a[0]))
+    return Opaque("digest", hash=h)
+
+
+@model("std::convert::TryInto::try_into", "std::convert::TryFrom::try_from")
+def m_try_into(I, a, e, ci):
+    """&[u8] -> [u8; N]: succeeds exactly when the slice has N bytes (decided for digest prefixes of constant length)"""
+    import re as _re
+
+    v = I.deref(a[0])
+    ty = (e.get("ty") or "").replace(" ", "")
+    m = _re.search(r"\[u8;(\d+)(usize)?\]", ty)
+    if m and isinstance(v, Bytes) and len(v.parts) == 1 and v.parts[0][0] == "digest-slice":
+        _, h, lo, hi = v.parts[0]
+        if lo.isdigit() and hi.isdigit() and int(hi) - int(lo) == int(m.group(1)):
+            return Enum("Result", "Ok", [v])
+    raise Unanalysable(f"try_into of {v!r} into {ty}", FX.short(e.get("sp")))
+
+
+@model("std::mem::drop")
+def m_drop(I, a, e, ci):
+    return UNIT
+
+
+@model("std::iter::Iterator::by_ref", places=(0,))
+def m_by_ref(I, a, e, ci):
+    return a[0]
+
+
+@model("std::iter::repeat_with")
+def m_repeat_with(I, a, e, ci):
+    f = a[0]
+    # the producer must be pure (its one symbolic application stands for every element)
+    old = I.sub_trace()
+    try:
+        v = I.deref(I.apply_closure(f, []))
+    finally:
+        sub = I.trace
+        I.trace = old
+    if sub.items:
+        raise Unanalysable("iter::repeat_with with an effectful producer", FX.short(e.get("sp")))
+    return IterV(None, infinite=lambda i, v=v: I.copy_val(v))
+
+
+@model("std::iter::empty")
+def m_iter_empty(I, a, e, ci):
+    return IterV(Vec([]))
+
+
+@model("std::iter::Iterator::for_each")
+def m_for_each(I, a, e, ci):
+    it, f = I.deref(a[0]), I.deref(a[1])
+    if isinstance(it, UserIter):
+        I.user_iter_loop(it, lambda x: I.apply_closure(f, [x]), {}, e)
+        return UNIT
+    itv = I.to_iter(it, e)
+    if isinstance(f, Closure) and len(f.node["params"]) == 1:
+        # a for loop whose pattern and body are the closure's
+        I.run_loop(f.node["params"][0], itv, f.node["body"], f.env, e)
+        return UNIT
+    if itv.vec is None:
+        raise Unanalysable("for_each over an unbounded iterator", FX.short(e.get("sp")))
+    for s in itv.vec.nonempty_segs():
+        if s.n != 1:
+            raise Unanalysable("for_each with a non-closure callee over a symbolic range", FX.short(e.get("sp")))
+        I.apply_closure(f, [s.f(sp.Integer(0))])
+    return UNIT
